@@ -220,6 +220,9 @@ def _batches(draw, tier):
     case["step_ids"] = draw(st.sampled_from(["range", "range", "gaps", "offset"]))
     case["node_ids"] = draw(st.sampled_from(["range", "offset", "descending"]))
     case["perm"] = list(draw(st.permutations(range(len(case["seq"])))))
+    # the rows of the (load_step, node_id) Series: load step by load step, or node by node (one time series per node
+    # concatenated) - the index carries the complete information
+    case["row_order"] = draw(st.sampled_from(["step_major", "step_major", "node_major"]))
     return case
 
 
@@ -264,6 +267,9 @@ def batch_vs_alone(case, ctx):
     idx = pd.MultiIndex.from_arrays([[step_ids[i] for i in range(m) for j in range(n)], [node_ids[j] for i in range(m) for j in range(n)]],
                                     names=["load_step", "node_id"])
     series = pd.Series([loads_by_point[j][i] for i in range(m) for j in range(n)], index=idx, dtype=np.float64)
+    if case.get("row_order") == "node_major":
+        series = pd.concat([series.xs(nid, level="node_id", drop_level=False) for nid in node_ids])
+        ctx.label("rows_node_major")
     max_series = pd.Series(maxima, index=pd.Index(node_ids, name="node_id"), dtype=np.float64)
     law, binned_batch = _law(case, max_series)
     det, rec = _hcm.run_two_pass(series, binned_batch)
